@@ -403,8 +403,55 @@ Proof.
     + injection Hx as _ Hx. now apply app_cons_not_nil in Hx.
 Qed.
 
+(** the root item of a tree handed out by split_at has been pushed: nothing is pending on it *)
+Definition RootClean (t : tree) : Prop := match item t with Some x => Pending x [] | None => True end.
+
+Lemma update_clean l x r ls rs : Rep l ls -> Rep r rs -> Pending x [] -> Pending (update x (item l) (item r)) [].
+Proof.
+  intros Hl Hr Hp.
+  destruct (law_update LAW x _ _ _ _ (Rep_Summ _ _ Hl) (Rep_Summ _ _ Hr)) as (_ & _ & _ & Hpe). auto.
+Qed.
+
+Lemma split_at_clean t : forall ot k xs a b,
+  Rep (set_item t ot) xs -> split_at update push size t ot k = (a, b) -> RootClean a /\ RootClean b.
+Proof.
+  induction t as [|l IHl x0 p r IHr]; intros ot k xs a b HR HS.
+  - simpl in HS. injection HS as <- <-. split; exact I.
+  - rewrite set_item_Nd in HR. cbn [split_at] in HS.
+    destruct (push (ovr ot x0) (item l) (item r)) as [[x' ol] or] eqn:Epush.
+    destruct (Rep_push_node _ _ _ _ _ _ _ _ HR Epush) as (ls & rs & Hx & Hl & Hr & Hp & _ & _).
+    rewrite (Rep_osize _ _ Hl) in HS.
+    destruct (len ls <? k) eqn:Hk.
+    + destruct (split_at update push size r or (k - len ls - 1)) as [a0 b0] eqn:Er.
+      injection HS as <- <-.
+      destruct (IHr _ _ _ _ _ Hr Er) as [_ Hb].
+      destruct (split_at_rep_gen r or _ rs a0 b0 Hr Er) as [Ha0 _].
+      split; [|exact Hb]. unfold RootClean. cbn [item]. eapply update_clean; eauto.
+    + destruct (split_at update push size l ol k) as [a0 b0] eqn:El.
+      injection HS as <- <-.
+      destruct (IHl _ _ _ _ _ Hl El) as [Ha _].
+      destruct (split_at_rep_gen l ol _ ls a0 b0 Hl El) as [_ Hb0].
+      split; [exact Ha|]. unfold RootClean. cbn [item]. eapply update_clean; eauto.
+Qed.
+
+(** a pushed root that denotes a one-element sequence is as good as a freshly made item *)
+Lemma Rep_item_fresh t ys x : Rep t (firstn 1 ys) -> RootClean t -> item t = Some x -> Fresh x.
+Proof.
+  destruct ys as [|v ys]; simpl; intros HR HC HI.
+  - apply Rep_nil_inv in HR. subst. discriminate.
+  - inversion HR as [|l x1 p r ms ls rs xs Hp Hl Hr Hx Ha Hs]; subst. simpl in HI, HC. injection HI as ->.
+    assert (Hv : v = elem x).
+    { destruct (map (acts ms) ls) as [|a m]; simpl in Hx.
+      - now injection Hx.
+      - injection Hx as _ Hx. now apply app_cons_not_nil in Hx. }
+    subst v. repeat split; auto.
+Qed.
+
+(** remove_at: the remaining sequence, the element of the returned item, and the returned item is [Fresh]:
+    one element, aggregate of that one-element sequence, size 1, nothing pending — it can be inserted again *)
 Lemma remove_at_rep t k xs t' res : Rep t xs -> remove_at update push size t k = (t', res) ->
-  Rep t' (firstn (Z.to_nat k) xs ++ skipn (S (Z.to_nat k)) xs) /\ option_map elem res = nth_error xs (Z.to_nat k).
+  Rep t' (firstn (Z.to_nat k) xs ++ skipn (S (Z.to_nat k)) xs) /\ option_map elem res = nth_error xs (Z.to_nat k)
+  /\ (forall x, res = Some x -> Fresh x).
 Proof.
   intros HR HE. unfold remove_at in HE.
   destruct (split_at update push size t None k) as [t1 t23] eqn:E1.
@@ -412,9 +459,11 @@ Proof.
   injection HE as <- <-.
   destruct (split_at_rep_gen t None k xs t1 t23) as [H1 H23]; [now rewrite set_item_None | exact E1 |].
   destruct (split_at_rep_gen t23 None 1 (skipn (Z.to_nat k) xs) t2 t3) as [H2 H3]; [rewrite set_item_None; exact H23 | exact E2 |].
-  change (Z.to_nat 1) with 1%nat in *. rewrite skipn_1_skipn in H3. split.
+  destruct (split_at_clean t23 None 1 (skipn (Z.to_nat k) xs) t2 t3) as [C2 _]; [rewrite set_item_None; exact H23 | exact E2 |].
+  change (Z.to_nat 1) with 1%nat in *. rewrite skipn_1_skipn in H3. split; [|split].
   - apply merge_rep_gen; now rewrite set_item_None.
   - rewrite nth_error_skipn. now apply Rep_item_hd.
+  - intros x Hx. eapply Rep_item_fresh; eauto.
 Qed.
 
 Lemma root_agg_rep t xs : Rep t xs ->
@@ -428,9 +477,10 @@ Qed.
 
 (** ---------- the machine refines the list-of-lists specification ---------- *)
 Notation op := (@op T M V).
-Notation output := (@output V A).
 Definition op_fresh (o : op) : Prop :=
   match o with FromItem x => Fresh x | InsertAt _ _ x => Fresh x | _ => True end.
+(** every item that the machine hands out through remove_at is [Fresh] *)
+Definition out_fresh (o : @output T V A) : Prop := match o with ORemoved x => Fresh x | _ => True end.
 
 Lemma F2_snoc (st : list tree) sst t xs : Forall2 Rep st sst -> Rep t xs -> Forall2 Rep (st ++ [t]) (sst ++ [xs]).
 Proof. intros. apply Forall2_app; auto. Qed.
@@ -448,87 +498,112 @@ Qed.
 Ltac nth_cases H i st sst :=
   pose proof (F2_nth Rep st sst i H) as Hn;
   destruct (nth_error st i) as [t|]; destruct (nth_error sst i) as [xs|] eqn:Es; simpl in Hn; try contradiction.
+Ltac outs := cbn [out_elem out_fresh]; split; [reflexivity | solve [exact I | assumption]].
 
 Lemma step_rep st sst ps o sst' out st' ps' out' :
   Forall2 Rep st sst -> op_fresh o ->
   sstep elem act aggf sst o = Some (sst', out) ->
   step update push size modify elem agg st ps o = (st', ps', out') ->
-  Forall2 Rep st' sst' /\ out' = out.
+  Forall2 Rep st' sst' /\ out_elem elem out' = out /\ out_fresh out'.
 Proof.
-  intros H HF HS HM. destruct o; simpl in HS, HM, HF.
-  - (* New *) injection HS as <- <-. injection HM as <- <- <-. split; auto. apply F2_snoc; auto. constructor.
+  intros H HF HS HM. destruct o; [simpl in HS, HM, HF .. | cbn [sstep step] in HS, HM].
+  - (* New *) injection HS as <- <-. injection HM as <- <- <-. split; [|now outs]. apply F2_snoc; auto. constructor.
   - (* FromItem *) destruct (next_prio ps) as [p ps1]. injection HS as <- <-. injection HM as <- <- <-.
-    split; auto. apply F2_snoc; auto. now apply Rep_single.
+    split; [|now outs]. apply F2_snoc; auto. now apply Rep_single.
   - (* Merge *) pose proof (F2_take2 Rep st sst i j H) as H2.
     destruct (take2 i j st) as [[[a b] rest]|], (take2 i j sst) as [[[xa xb] xrest]|]; try contradiction.
-    + destruct H2 as (Ha & Hb & Hr). injection HS as <- <-. injection HM as <- <- <-. split; auto.
+    + destruct H2 as (Ha & Hb & Hr). injection HS as <- <-. injection HM as <- <- <-. split; [|now outs].
       apply F2_snoc; auto. apply merge_rep_gen; now rewrite set_item_None.
-    + injection HS as <- <-. injection HM as <- <- <-. auto.
+    + injection HS as <- <-. injection HM as <- <- <-. split; [assumption|outs].
   - (* SplitAt *) pose proof (F2_take1 Rep st sst i H) as H1.
     destruct (take1 i st) as [[t rest]|], (take1 i sst) as [[xs xrest]|]; try contradiction.
     + destruct H1 as (Ht & Hr). destruct (split_at update push size t None k) as [a b] eqn:ES.
-      injection HS as <- <-. injection HM as <- <- <-. split; auto.
+      injection HS as <- <-. injection HM as <- <- <-. split; [|now outs].
       destruct (split_at_rep_gen t None k xs a b) as [Ha Hb]; [now rewrite set_item_None | exact ES |].
       apply F2_snoc2; auto.
-    + injection HS as <- <-. injection HM as <- <- <-. auto.
+    + injection HS as <- <-. injection HM as <- <- <-. split; [assumption|outs].
   - (* SplitBy *) pose proof (F2_take1 Rep st sst i H) as H1.
     destruct (take1 i st) as [[t rest]|], (take1 i sst) as [[xs xrest]|]; try contradiction.
     + destruct H1 as (Ht & Hr). destruct (monotone_on q xs) eqn:Hmono; [|discriminate].
       destruct (split_by update push (fun x => q (elem x)) t None) as [a b] eqn:ES.
-      injection HS as <- <-. injection HM as <- <- <-. split; auto.
+      injection HS as <- <-. injection HM as <- <- <-. split; [|now outs].
       destruct (split_by_rep_gen q t None xs a b) as [Ha Hb]; [now rewrite set_item_None | exact Hmono | exact ES |].
       apply F2_snoc2; auto.
-    + injection HS as <- <-. injection HM as <- <- <-. auto.
+    + injection HS as <- <-. injection HM as <- <- <-. split; [assumption|outs].
   - (* InsertAt *) nth_cases H i st sst.
-    + destruct (next_prio ps) as [p ps1]. injection HS as <- <-. injection HM as <- <- <-. split; auto.
+    + destruct (next_prio ps) as [p ps1]. injection HS as <- <-. injection HM as <- <- <-. split; [|now outs].
       apply F2_replace; auto. now apply insert_at_rep.
-    + injection HS as <- <-. injection HM as <- <- <-. auto.
+    + injection HS as <- <-. injection HM as <- <- <-. split; [assumption|outs].
   - (* RemoveAt *) nth_cases H i st sst.
     + destruct (remove_at update push size t k) as [t' res] eqn:ER.
-      destruct (remove_at_rep t k xs t' res Hn ER) as [HR' Hres].
+      destruct (remove_at_rep t k xs t' res Hn ER) as (HR' & Hres & Hfr).
       injection HM as <- <- <-.
       destruct (nth_error xs (Z.to_nat k)) as [v|] eqn:En.
       * injection HS as <- <-. destruct res as [x|]; simpl in Hres; [|discriminate].
-        injection Hres as ->. split; auto. apply F2_replace; auto.
-      * injection HS as <- <-. destruct res as [x|]; simpl in Hres; [discriminate|]. split; auto.
+        injection Hres as Hv. subst v. specialize (Hfr x eq_refl). split; [|now outs]. apply F2_replace; auto.
+      * injection HS as <- <-. destruct res as [x|]; simpl in Hres; [discriminate|]. split; [|now outs].
         rewrite <- (replace_nth_same sst i xs Es). apply F2_replace; auto.
         apply nth_error_None in En. rewrite firstn_all2, skipn_all2 in HR' by lia. now rewrite app_nil_r in HR'.
-    + injection HS as <- <-. injection HM as <- <- <-. auto.
+    + injection HS as <- <-. injection HM as <- <- <-. split; [assumption|outs].
   - (* ModifyRoot *) nth_cases H i st sst.
-    + injection HS as <- <-. injection HM as <- <- <-. split; auto.
+    + injection HS as <- <-. injection HM as <- <- <-. split; [|now outs].
       apply F2_replace; auto. now apply modify_root_rep.
-    + injection HS as <- <-. injection HM as <- <- <-. auto.
+    + injection HS as <- <-. injection HM as <- <- <-. split; [assumption|outs].
   - (* First *) nth_cases H i st sst.
     + destruct (first push t None) as [t' res] eqn:EF.
       destruct (first_rep_gen t None xs t' res) as [HR' Hres]; [now rewrite set_item_None | exact EF |].
-      injection HS as <- <-. injection HM as <- <- <-. split; [|now rewrite Hres].
+      injection HS as <- <-. injection HM as <- <- <-. split; [|cbn [out_elem]; rewrite Hres; now outs].
       rewrite <- (replace_nth_same sst i xs Es). apply F2_replace; auto.
-    + injection HS as <- <-. injection HM as <- <- <-. auto.
+    + injection HS as <- <-. injection HM as <- <- <-. split; [assumption|outs].
   - (* Last *) nth_cases H i st sst.
     + destruct (last push t None) as [t' res] eqn:EF.
       destruct (last_rep_gen t None xs t' res) as [HR' Hres]; [now rewrite set_item_None | exact EF |].
-      injection HS as <- <-. injection HM as <- <- <-. split; [|now rewrite Hres].
+      injection HS as <- <-. injection HM as <- <- <-. split; [|cbn [out_elem]; rewrite Hres; now outs].
       rewrite <- (replace_nth_same sst i xs Es). apply F2_replace; auto.
-    + injection HS as <- <-. injection HM as <- <- <-. auto.
+    + injection HS as <- <-. injection HM as <- <- <-. split; [assumption|outs].
   - (* Collect *) nth_cases H i st sst.
     + destruct (collect push t None) as [t' ys] eqn:EF.
       destruct (collect_rep_gen t None xs t' ys) as [HR' Hres]; [now rewrite set_item_None | exact EF |].
-      injection HS as <- <-. injection HM as <- <- <-. split; [|now rewrite Hres].
+      injection HS as <- <-. injection HM as <- <- <-. split; [|cbn [out_elem]; rewrite Hres; now outs].
       rewrite <- (replace_nth_same sst i xs Es). apply F2_replace; auto.
-    + injection HS as <- <-. injection HM as <- <- <-. auto.
+    + injection HS as <- <-. injection HM as <- <- <-. split; [assumption|outs].
   - (* Size *) nth_cases H i st sst.
-    + injection HS as <- <-. injection HM as <- <- <-. split; auto. unfold tsize. now rewrite (Rep_osize _ _ Hn).
-    + injection HS as <- <-. injection HM as <- <- <-. auto.
+    + injection HS as <- <-. injection HM as <- <- <-. split; auto. unfold tsize. rewrite (Rep_osize _ _ Hn). now outs.
+    + injection HS as <- <-. injection HM as <- <- <-. split; [assumption|outs].
   - (* RootAgg *) nth_cases H i st sst.
-    + injection HS as <- <-. injection HM as <- <- <-. split; auto. now rewrite (root_agg_rep _ _ Hn).
-    + injection HS as <- <-. injection HM as <- <- <-. auto.
+    + injection HS as <- <-. injection HM as <- <- <-. split; auto. rewrite (root_agg_rep _ _ Hn). now outs.
+    + injection HS as <- <-. injection HM as <- <- <-. split; [assumption|outs].
+  - (* Move: remove_at on treap i, then insert_at of the returned item on treap j *)
+    pose proof (F2_nth Rep st sst i H) as Hi. pose proof (F2_nth Rep st sst j H) as Hj.
+    destruct (nth_error st i) as [t|]; destruct (nth_error sst i) as [xs|] eqn:Es; simpl in Hi; try contradiction;
+      [|injection HS as <- <-; injection HM as <- <- <-; split; [assumption|outs]].
+    destruct (nth_error st j) as [tj|]; destruct (nth_error sst j) as [xj|]; simpl in Hj; try contradiction;
+      [|injection HS as <- <-; injection HM as <- <- <-; split; [assumption|outs]].
+    destruct (remove_at update push size t k) as [t' res] eqn:ER.
+    destruct (remove_at_rep t k xs t' res Hi ER) as (HR' & Hres & Hfr).
+    destruct (nth_error xs (Z.to_nat k)) as [v|] eqn:En.
+    + destruct res as [x|]; simpl in Hres; [|discriminate]. injection Hres as Hv. subst v. specialize (Hfr x eq_refl).
+      assert (H1 : Forall2 Rep (replace_nth i t' st)
+                     (replace_nth i (firstn (Z.to_nat k) xs ++ skipn (S (Z.to_nat k)) xs) sst)) by (apply F2_replace; auto).
+      pose proof (F2_nth Rep _ _ j H1) as Hj1.
+      destruct (nth_error (replace_nth i t' st) j) as [u|];
+        destruct (nth_error (replace_nth i (firstn (Z.to_nat k) xs ++ skipn (S (Z.to_nat k)) xs) sst) j) as [ys|];
+        simpl in Hj1; try contradiction.
+      * destruct (next_prio ps) as [p ps1]. injection HS as <- <-. injection HM as <- <- <-.
+        split; [|now outs]. apply F2_replace; auto. apply insert_at_rep; auto.
+      * injection HS as <- <-. injection HM as <- <- <-. split; [assumption|outs].
+    + destruct res as [x|]; simpl in Hres; [discriminate|].
+      injection HS as <- <-. injection HM as <- <- <-. split; [|now outs].
+      rewrite <- (replace_nth_same sst i xs Es). apply F2_replace; auto.
+      apply nth_error_None in En. rewrite firstn_all2, skipn_all2 in HR' by lia. now rewrite app_nil_r in HR'.
 Qed.
 
 Lemma run_rep ops : forall st sst ps sst' outs,
   Forall2 Rep st sst -> Forall op_fresh ops ->
   srun elem act aggf sst ops = Some (sst', outs) ->
   Forall2 Rep (fst (fst (run update push size modify elem agg st ps ops))) sst'
-  /\ snd (run update push size modify elem agg st ps ops) = outs.
+  /\ map (out_elem elem) (snd (run update push size modify elem agg st ps ops)) = outs
+  /\ Forall out_fresh (snd (run update push size modify elem agg st ps ops)).
 Proof.
   induction ops as [|o ops IH]; intros st sst ps sst' outs H HF HS; simpl in *.
   - injection HS as <- <-. auto.
@@ -537,10 +612,10 @@ Proof.
     destruct (srun elem act aggf sst1 ops) as [[sst2 outs2]|] eqn:E2; [|discriminate].
     injection HS as <- <-.
     destruct (step update push size modify elem agg st ps o) as [[st1 ps1] out1] eqn:EM.
-    destruct (step_rep _ _ _ _ _ _ _ _ _ H Ho E1 EM) as [H1 ->].
+    destruct (step_rep _ _ _ _ _ _ _ _ _ H Ho E1 EM) as (H1 & <- & Hf1).
     specialize (IH st1 sst1 ps1 sst2 outs2 H1 Hops E2).
     destruct (run update push size modify elem agg st1 ps1 ops) as [[st2 ps2] outs'] eqn:ER.
-    simpl in *. destruct IH as [IH1 ->]. auto.
+    simpl in *. destruct IH as (IH1 & <- & IH3). auto.
 Qed.
 
 (** ---------- statements used by Properties.v ---------- *)
@@ -581,10 +656,11 @@ Qed.
 
 Theorem history ps ops sst outs :
   Forall op_fresh ops -> srun elem act aggf [] ops = Some (sst, outs) ->
-  run_outputs update push size modify elem agg ps ops = outs
+  map (out_elem elem) (run_outputs update push size modify elem agg ps ops) = outs
+  /\ Forall out_fresh (run_outputs update push size modify elem agg ps ops)
   /\ Forall2 Rep (run_final update push size modify elem agg ps ops) sst.
 Proof.
   intros HF HS. unfold run_outputs, run_final.
-  destruct (run_rep ops [] [] ps sst outs (Forall2_nil _) HF HS) as [H1 H2]. auto.
+  destruct (run_rep ops [] [] ps sst outs (Forall2_nil _) HF HS) as (H1 & H2 & H3). auto.
 Qed.
 End Laws.
